@@ -645,3 +645,105 @@ func (e *Engine) poolAllocators() map[*ssa.Function]bool {
 	}
 	return e.poolAllocs
 }
+
+// checkStagePurity: the optimiser evaluates a stage once against a probe context and folds it
+// into a constant if the stage made no lookup. That is only sound if everything a stage's value
+// depends on, other than its captured (immutable) variables, is reached through the context. A
+// stage (a function taking a KeyBuilderContext and returning a string) that reads the clock, the
+// environment, a random source or a package-level variable written outside initialisation must
+// therefore perform a context lookup whenever it does so: the lookup dominates the impure read or
+// lies in the entry block. Ground obligations of class "purity".
+var impureCallees = map[string]bool{"time.Now": true, "time.Since": true, "time.Until": true, "os.Getenv": true, "os.LookupEnv": true, "os.Hostname": true,
+	"os.Getpid": true, "os.Getwd": true, "math/rand.Int": true, "math/rand.Intn": true, "math/rand.Float64": true, "math/rand.Int63": true, "os.ReadFile": true, "os.Open": true, "os.Stat": true}
+
+func (e *Engine) checkStagePurity(fn *ssa.Function) {
+	sig := fn.Signature
+	if sig.Params().Len() != 1 || sig.Results().Len() != 1 || sig.Recv() != nil {
+		return
+	}
+	if fullTypeName(sig.Params().At(0).Type()) != "rare/pkg/expressions.KeyBuilderContext" || kindOf(sig.Results().At(0).Type()) != VStr {
+		return
+	}
+	if len(fn.Params) != 1 || len(fn.Blocks) == 0 {
+		return
+	}
+	ctx := fn.Params[0]
+	// context lookups
+	var touches []ssa.Instruction
+	var impure []ssa.Instruction
+	what := map[ssa.Instruction]string{}
+	mutable := e.mutableGlobals()
+	for _, b := range fn.Blocks {
+		for _, ins := range b.Instrs {
+			switch u := ins.(type) {
+			case ssa.CallInstruction:
+				c := u.Common()
+				if c.IsInvoke() && c.Value == ssa.Value(ctx) {
+					touches = append(touches, ins)
+				}
+				if f, ok := c.Value.(*ssa.Function); ok {
+					if n := funcFullName(f); impureCallees[n] {
+						impure = append(impure, ins)
+						what[ins] = "call of " + n
+					}
+				}
+			case *ssa.UnOp:
+				if g, ok := u.X.(*ssa.Global); ok && u.Op == token.MUL && mutable[g] {
+					impure = append(impure, ins)
+					what[ins] = "read of package variable " + g.Name() + " (written outside initialisation)"
+				}
+			}
+		}
+	}
+	if len(impure) == 0 {
+		return
+	}
+	name := funcFullName(fn)
+	fx := &FuncExec{eng: e, fn: fn, name: name, modKeys: map[string]bool{}, havocGens: map[string]bool{}}
+	for k, im := range impure {
+		ok := false
+		for _, t := range touches {
+			if t.Block() == fn.Blocks[0] || t.Block().Dominates(im.Block()) && (t.Block() != im.Block() || instrIndex(t) < instrIndex(im)) {
+				ok = true
+			}
+		}
+		st := &State{fx: fx, declSet: map[string]bool{}, pcSet: map[string]bool{}, ghostV: map[string]Value{}}
+		st.heap = &HeapView{m: map[string]string{}, base: "0"}
+		st.old = st.heap
+		goal := "false"
+		if ok {
+			goal = "true"
+		}
+		txt, _ := e.srcLine(im.Pos())
+		e.oblige(fx, st, "purity", fmt.Sprintf("context-touched:%s#%d", strings.TrimSpace(txt), k+1), goal,
+			"a stage whose value depends on "+what[im]+" must look at the context on that path (else the optimiser freezes it at compile time)", im.Pos())
+	}
+}
+
+// mutableGlobals: package-level variables of the module stored to outside package initialisation.
+func (e *Engine) mutableGlobals() map[*ssa.Global]bool {
+	e.mu.Lock()
+	defer e.mu.Unlock()
+	if e.mutGlobals != nil {
+		return e.mutGlobals
+	}
+	e.mutGlobals = map[*ssa.Global]bool{}
+	for fn := range ssautil.AllFunctions(e.prog) {
+		if fn.Pkg == nil || (fn.Name() == "init" && fn.Synthetic != "") {
+			continue
+		}
+		if p := fn.Pkg.Pkg.Path(); !(strings.HasPrefix(p, "rare/") || p == "rare") {
+			continue
+		}
+		for _, b := range fn.Blocks {
+			for _, ins := range b.Instrs {
+				if s, ok := ins.(*ssa.Store); ok {
+					if g, ok := s.Addr.(*ssa.Global); ok {
+						e.mutGlobals[g] = true
+					}
+				}
+			}
+		}
+	}
+	return e.mutGlobals
+}
